@@ -88,6 +88,8 @@ where
     }
 
     fn post_process(&mut self, residuals: &DefaultResiduals<T>, settings: &DefaultSettings<T>) {
+        #[cfg(clarabel_verif)]
+        let verif_status_before = self.status;
         // if there was an error or we ran out of time
         // or iterations, check for partial convergence
 
@@ -97,6 +99,12 @@ where
         {
             self.check_convergence_almost(residuals, settings);
         }
+        #[cfg(clarabel_verif)]
+        crate::verif::emit_simple(
+            "PostInfo",
+            &[verif_status_before as i64, self.status as i64],
+            &[],
+        );
     }
 
     fn finalize(&mut self, timers: &mut Timers) {
@@ -172,6 +180,35 @@ where
 
         // solve time so far (includes setup)
         self.solve_time = timers.total_time().as_secs_f64();
+
+        #[cfg(clarabel_verif)]
+        if crate::verif::is_on() {
+            use crate::verif::{f64_of, vec_of};
+            let mut e = crate::verif::Event {
+                name: "LoopTop",
+                i: vec![self.iterations as i64, variables.x.len() as i64, variables.s.len() as i64],
+                f: vec![
+                    f64_of(self.μ), f64_of(self.step_length), f64_of(self.sigma),
+                    f64_of(self.cost_primal), f64_of(self.cost_dual),
+                    f64_of(self.res_primal), f64_of(self.res_dual),
+                    f64_of(self.res_primal_inf), f64_of(self.res_dual_inf),
+                    f64_of(self.gap_abs), f64_of(self.gap_rel), f64_of(self.ktratio),
+                    f64_of(self.prev_cost_primal), f64_of(self.prev_cost_dual),
+                    f64_of(self.prev_res_primal), f64_of(self.prev_res_dual),
+                    f64_of(self.prev_gap_abs), f64_of(self.prev_gap_rel),
+                    self.solve_time,
+                    f64_of(variables.τ), f64_of(variables.κ),
+                    f64_of(residuals.dot_bz), f64_of(residuals.dot_qx),
+                    f64_of(residuals.dot_sz), f64_of(residuals.dot_xPx),
+                    f64_of(normb), f64_of(normq),
+                ],
+                ..Default::default()
+            };
+            if variables.x.len().max(variables.s.len()) <= crate::verif::detail() {
+                e.v = vec![vec_of(&variables.x), vec_of(&variables.s), vec_of(&variables.z)];
+            }
+            crate::verif::emit(e);
+        }
     }
 
     fn check_termination(
@@ -221,6 +258,13 @@ where
             }
         }
 
+        #[cfg(clarabel_verif)]
+        crate::verif::emit_simple(
+            "Check",
+            &[iter as i64, self.status as i64, self.iterations as i64],
+            &[],
+        );
+
         // return TRUE if we settled on a final status
         self.status != SolverStatus::Unsolved
     }
@@ -234,6 +278,8 @@ where
         self.prev_gap_rel = self.gap_rel;
 
         prev_variables.copy_from(variables);
+        #[cfg(clarabel_verif)]
+        crate::verif::emit_simple("SavePrev", &[], &[]);
     }
 
     fn reset_to_prev_iterate(&mut self, variables: &mut Self::V, prev_variables: &Self::V) {
@@ -245,6 +291,8 @@ where
         self.gap_rel = self.prev_gap_rel;
 
         variables.copy_from(prev_variables);
+        #[cfg(clarabel_verif)]
+        crate::verif::emit_simple("Rollback", &[], &[]);
     }
 
     fn save_scalars(&mut self, μ: T, α: T, σ: T, iter: u32) {
@@ -252,6 +300,12 @@ where
         self.step_length = α;
         self.sigma = σ;
         self.iterations = iter;
+        #[cfg(clarabel_verif)]
+        crate::verif::emit_simple(
+            "SaveScalars",
+            &[iter as i64],
+            &[crate::verif::f64_of(μ), crate::verif::f64_of(α), crate::verif::f64_of(σ)],
+        );
     }
 
     fn get_status(&self) -> SolverStatus {
@@ -260,6 +314,8 @@ where
 
     fn set_status(&mut self, status: SolverStatus) {
         self.status = status;
+        #[cfg(clarabel_verif)]
+        crate::verif::emit_simple("SetStatus", &[status as i64], &[]);
     }
 }
 
